@@ -11,6 +11,7 @@ import numpy as np
 from optuna.samplers._lazy_random_state import LazyRandomState
 from optuna.samplers.nsgaii._constraints_evaluation import _validate_constraints
 from optuna.samplers.nsgaii._elite_population_selection_strategy import _rank_population
+from optuna.study._study_direction import StudyDirection
 from optuna.trial import FrozenTrial
 
 
@@ -75,9 +76,13 @@ class NSGAIIIElitePopulationSelectionStrategy:
                         "of objectives of the study."
                     )
 
-                # Normalize objective values after filtering +-inf.
+                # Normalize objective values after filtering +-inf. The niching below assumes
+                # minimization, so the objectives to be maximized are negated first.
+                signs = np.array(
+                    [-1.0 if d == StudyDirection.MAXIMIZE else 1.0 for d in study.directions]
+                )
                 objective_matrix = _normalize_objective_values(
-                    _filter_inf(elite_population + population)
+                    _filter_inf(elite_population + population) * signs
                 )
                 (
                     closest_reference_points,
